@@ -382,6 +382,15 @@ def judge(sp, cfg, res, want=None):
                 if r["arg"] is not None:
                     if label != r["arg"]:
                         add("C17", "arg_label_mismatch", "row labelled '%s' (%s) ran with argument '%s'" % (label, "::".join(path), r["arg"]))
+                    # an argument row of a generic instantiation sits under the const / type it was instantiated with
+                    up = path[:-1]
+                    if r["const"] is not None and up:
+                        kind = e.model.bench.constkind
+                        if up[-1] != TG.const_render(kind, r["const"]):
+                            add("C17", "const_label_mismatch", "row '%s' sits under const '%s' but ran with const '%s'" % ("::".join(path), up[-1], r["const"]))
+                        up = up[:-1]
+                    if r["ty"] is not None and up and up[-1] != TG.type_display(r["ty"]):
+                        add("C17", "type_label_mismatch", "row '%s' sits under type '%s' but ran with type '%s'" % ("::".join(path), up[-1], r["ty"]))
                 elif r["const"] is not None:
                     kind = e.model.bench.constkind
                     if label != TG.const_render(kind, r["const"]):
